@@ -83,6 +83,14 @@ var verifRoot = func() string {
 	return "/verif"
 }()
 
+// outRoot is where evidence and replay files are written (differs from verifRoot only in self-tests).
+var outRoot = func() string {
+	if v := os.Getenv("VERIF_EVIDENCE_ROOT"); v != "" {
+		return v
+	}
+	return verifRoot
+}()
+
 func seedFromEnv(def uint64) uint64 {
 	if v := os.Getenv("VERIF_SEED"); v != "" {
 		if n, err := strconv.ParseUint(v, 10, 64); err == nil {
@@ -113,11 +121,11 @@ func cmdCheck(args []string) {
 	fmt.Printf("VERIF_SEED=%d property=%s tier=%s\n", seed, id, tier)
 	switch id {
 	case "C14", "C16", "C18":
-		res, err := gensim.Check(verifRoot, id, tier, seed)
+		res, err := gensim.Check(outRoot, id, tier, seed)
 		if err != nil {
 			exitFor(err)
 		}
-		if err := gensim.WriteEvidence(verifRoot, res.Evidence); err != nil {
+		if err := gensim.WriteEvidence(outRoot, res.Evidence); err != nil {
 			exitFor(err)
 		}
 		fmt.Printf("cases=%v distinct=%v child_runs=%v wall=%.1fs violations=%d\n", res.Evidence.Coverage["evaluations"],
@@ -143,7 +151,7 @@ func cmdCheck(args []string) {
 		res.Evidence["rule"] = convRule[id]
 		ev := &gensim.Evidence{PropertyID: id, Tier: tier, Seed: int64(seed), Level: level, Coverage: res.Evidence,
 			Assumptions: convAssumptions, WallS: res.Wall, Violations: res.NViol}
-		if err := gensim.WriteEvidence(verifRoot, ev); err != nil {
+		if err := gensim.WriteEvidence(outRoot, ev); err != nil {
 			exitFor(err)
 		}
 		fmt.Printf("histories=%v classes=%v wall=%.1fs violations=%d\n", res.Evidence["evaluations"], res.Evidence["distinct_nontrivial"], res.Wall, res.NViol)
